@@ -614,8 +614,12 @@ def run(ctx):
     jobs = [(ctx.seed, ctx.tier, i) for i in range(n_cases)]
     jobs.sort(key=lambda j: (j[2] % 3 != 2, j[2]))        # batch ensembles (the slow ones) first
     workers = int(os.environ.get("C12_WORKERS", min(8, os.cpu_count() or 1)))
+    # when the run measures source coverage, a few cases of each kind are executed in this process (workers are not measured)
+    inproc = jobs[:3] + jobs[-3:] if core.COVERAGE_ACTIVE else []
+    rest = [j for j in jobs if j not in inproc]
+    results = [_work(j) for j in inproc]
     with ProcessPoolExecutor(max_workers=workers) as ex:
-        results = list(ex.map(_work, jobs, chunksize=1))
+        results += list(ex.map(_work, rest, chunksize=1))
     results.sort(key=lambda r: r["case"]["idx"])
     lines, expect = [], []
     for r in results:
